@@ -2,7 +2,7 @@
 From Coq Require Import List NArith ZArith Bool.
 From Muscle Require Import Gen.Consts Refl.Base Refl.BaseProofs Refl.Tree Refl.Matcher Refl.Session Refl.Server Refl.ServerProofs
      Refl.IsoModel Refl.IsoBase Refl.IsoFrame Refl.IsoProofs Refl.IsoTold Refl.IsoDetach Refl.IsoRun Refl.IsoClean
-     Refl.IsoSimBase Refl.IsoSim Refl.IsoHosts Refl.IsoNever Refl.IsoKick Refl.IsoAsIf Refl.IsoCut Refl.IsoOrd Refl.IsoOrdProofs Refl.IsoHonest Refl.IsoQuiet Refl.IsoExamples.
+     Refl.IsoSimBase Refl.IsoSim Refl.IsoHosts Refl.IsoNever Refl.IsoKick Refl.IsoAsIf Refl.IsoCut Refl.IsoOrd Refl.IsoOrdProofs Refl.IsoOrdSim Refl.IsoHonest Refl.IsoQuiet Refl.IsoExamples.
 Import ListNotations.
 
 (* A client cannot give itself privileges. *)
@@ -282,6 +282,41 @@ Example C06_ord_premises_satisfiable :
   o_idx (ostep all_fixed ex_iname (orun all_fixed ex_iname ex_ohistory empty_oserver) (ODetach 11%N)) = [] /\
   o_ctr (ostep all_fixed ex_iname (orun all_fixed ex_iname ex_ohistory empty_oserver) (ODetach 11%N)) = [].
 Proof. split; [apply ok_empty|]. vm_compute. repeat split; reflexivity. Qed.
+
+(* AS IF NEVER with ordered children: premises as for C06_as_if_never, on histories of the model of Refl/IsoOrd.v.  After s's
+   connection has ended, trees (below host level), sessions and privileges agree with the run from which everything s did has
+   been erased, and so do the ordered indices and the name counters of ALL nodes: the others' INSERTORDEREDDATA commands
+   generated the same child names and built the same indices, whatever s inserted, reordered or removed, in its own subtree
+   or aimed at theirs, and whether s left by itself or was kicked. *)
+Theorem C06_ord_as_if_never : forall (M : MatchOps) (L : MatchLaws M) (fx : fixes), fx_guard fx = true ->
+  forall (iname : N -> name) (s : sid) evs,
+  small (orun_budget evs) -> owf_run fx iname empty_oserver evs -> onm_run fx iname empty_oserver evs -> Forall (oev_nokick s) evs ->
+  let OF := ostep fx iname (orun fx iname evs empty_oserver) (ODetach s) in
+  let OE := orun fx iname (oerase s evs) empty_oserver in
+  body (sv_tree (xs_sv (o_x OF))) = body (sv_tree (xs_sv (o_x OE))) /\
+  all_params (xs_sv (o_x OF)) = all_params (xs_sv (o_x OE)) /\
+  xs_priv (o_x OF) = xs_priv (o_x OE) /\
+  o_idx OF = o_idx OE /\ o_ctr OF = o_ctr OE.
+Proof. exact @o_as_if_never. Qed.
+Print Assumptions C06_ord_as_if_never.
+
+(* non-vacuity: the second example history -- 10 builds an index under its own node while 11 builds one under its node and
+   aims inserts and reorders at 10's -- satisfies the premises for s = 11; erasing 11 leaves a shorter history; 10's index
+   and counter are there at the end of both runs *)
+Example C06_ord_as_if_never_premises_satisfiable :
+  small (orun_budget ex_ohistory2) /\ owf_run all_fixed ex_iname empty_oserver ex_ohistory2 /\
+  onm_run all_fixed ex_iname empty_oserver ex_ohistory2 /\ Forall (oev_nokick 11%N) ex_ohistory2 /\
+  length ex_ohistory2 = 9 /\ length (oerase 11%N ex_ohistory2) = 3 /\
+  o_idx (orun all_fixed ex_iname ex_ohistory2 empty_oserver) = [([1%N; 10%N; 7%N], [1001%N; 1000%N]); ([1%N; 11%N; 7%N], [1000%N])] /\
+  o_idx (orun all_fixed ex_iname (oerase 11%N ex_ohistory2) empty_oserver) = [([1%N; 10%N; 7%N], [1001%N; 1000%N])].
+Proof.
+  split; [vm_compute; reflexivity|]. split; [|split].
+  - cbn. repeat split; intros ss Hin; cbn in Hin;
+      repeat (destruct Hin as [Hin|Hin]; [subst ss; cbn; discriminate|]); destruct Hin.
+  - cbn. repeat split; try discriminate;
+      repeat (match goal with H : _ \/ _ |- _ => destruct H as [H|H] | H : False |- _ => destruct H end); subst; cbn; discriminate.
+  - split; [repeat (constructor; [cbn; intros; first [exact I|discriminate|reflexivity]|]); constructor|]. vm_compute. repeat split; reflexivity.
+Qed.
 
 (* FORGED SESSION FIELDS.  Whatever what-code, keys and PR_NAME_SESSION string a session puts into a Message, in any state:
    everything the dispatcher adds to the outgoing log is either a bounce / reply to the sender itself, or a copy for SOMEBODY
